@@ -11,7 +11,8 @@ cd "$out"
 rm -f model.ml model.mli
 cp "$here/../coq/extract/$P.v" "Extract_$P.v"
 coqc -q -Q "$here/../coq/theories" GV "Extract_$P.v" > extract.log 2>&1 || { cat extract.log; exit 1; }
-{ echo "open Model"; cat "$here/common/conv.ml" "$here/$p/driver_body.ml"; } > driver.ml
+extra=""; [ -f "$here/$p/uses_dump" ] && extra="$here/common/dump.ml"
+{ echo "open Model"; cat "$here/common/conv.ml" $extra "$here/$p/driver_body.ml"; } > driver.ml
 ocamlfind ocamlopt -O3 -w -a -package str -linkpkg model.mli model.ml driver.ml -o "gvm_$p" 2> ocaml.log || \
 ocamlfind ocamlopt -w -a -package str -linkpkg model.mli model.ml driver.ml -o "gvm_$p" 2> ocaml.log || { cat ocaml.log; exit 1; }
 echo "built $out/gvm_$p"
